@@ -143,6 +143,12 @@ class Isa(object):
             v = [x for x in self.variants if x[0] == self.variant][0]
             self.env.internals.update(v[1])
 
+    def globals_snapshot(self):
+        """the decode-mode globals of the env module as plain data"""
+        if self.env is not None and hasattr(self.env, "internals"):
+            return ["%s=%s" % (k, self.env.internals[k]) for k in sorted(self.env.internals, key=str)]
+        return []
+
     def arch_objects(self):
         """every reg / slc object reachable from the env namespace (module attributes, lists, dicts)"""
         from amoco.cas import expressions as X
